@@ -19,3 +19,7 @@ static void build(void) {
 }
 void h_segment_page_free(void) { build(); mi_segments_tld_t* tld; _mi_segment_page_free(g_ppage, vc_nondet_bool("force"), tld); VC_REACH(); }
 void h_segment_page_abandon(void) { build(); mi_segments_tld_t* tld = malloc(sizeof(mi_segments_tld_t)); __CPROVER_assume(tld != NULL); mi_stats_t* st = malloc(sizeof(mi_stats_t)); __CPROVER_assume(st != NULL); tld->stats = st; _mi_segment_page_abandon(g_ppage, tld); VC_REACH(); }
+void h_page_clear(void) {
+  build(); g_pused0 = vc_nondet_size("g_pused0"); g_sc0 = vc_nondet_u32("g_sc0"); g_so0 = vc_nondet_u32("g_so0"); g_tag0 = vc_nondet_u8("g_tag0"); g_co_n = 0;
+  mi_segments_tld_t* tld; mi_slice_t* r = mi_segment_page_clear(g_ppage, tld); VC_REACH();
+}
